@@ -183,6 +183,8 @@ def run(chk, prop="C02"):
         from tsg.effects import Effects
         nfr = c01.fresh_rule(chk, db, Effects(db), "C02-D6.fresh", classes=("TasGrid::GridSequence", "TasGrid::GridFourier"))
         chk.floor("C02-D6.fresh", nfr, 8, "value / point-set changes in the Sequence and Fourier grids")
+        from rules import cache
+        cache.size_cache_rule(chk, db, "C02-D7.cache")       # local polynomial quadrature weights are a transposed transform over the cached parent DAG
         chk.rule("C02-D4.area", "local polynomial quadrature weights are built from getArea: the tabulated basis integrals equal the exact integrals of the closed-form basis (obligations of C04-D4)")
         sub4 = Check("C04", chk.tier, chk.seed)
         c04.run(sub4)
